@@ -36,14 +36,14 @@ ASSUMPTIONS = [
     'state_pop theorem: the block between push and pop does not assign generators, instantiate, or push/pop '
     '(nested push/pop is executed and checked by the oracle, not proved)',
 ]
-RULE = ('directed prefix (sentinel time, cache copy on instantiation, shared generators, exceptions in nested contexts, '
+RULE = ('directed prefix (time -1 as first read = regression of the repaired cache marker, cache copy on instantiation, shared generators, exceptions in nested contexts, '
         'unbalanced pop, time_dependent off) + all sequences of length <=2 (<=3 thorough) over a 15-statement alphabet '
         '+ random histories of <=30 statements (time jumps forward/backward/repeated/negative/huge, reads, inspections, '
         'forced values, nested contexts left normally / by StopIteration / by KeyError, push/pop, assignments, new '
         'instances) over 1-4 parameters (Dynamic and Number), time-dependent generators with 3 names x 3 seeds x 3 '
         'distributions, counters and seeded streams. non-trivial = at least one oracle conclusion checked and one '
         'value read from a time-dependent generator; distinct = distinct canonical case')
-COVERAGE_TARGETS = ['read:td', 'read:st', 'read:td:placeholder', 'read:const', 'read:raised:ValueError',
+COVERAGE_TARGETS = ['read:td', 'read:st', 'read:const',
                     'inspect:td', 'inspect:st', 'force:td', 'force:st', 'enter', 'exit', 'exit:raised:KeyError',
                     'exit:raised:IndexError', 'push', 'pop', 'pop:raised:IndexError', 'raise:raised:StopIteration',
                     'raise:raised:KeyError', 'newInst', 'assign', 'setTime', 'advance', 'setStep', 'setUntil']
@@ -69,6 +69,11 @@ class _Counter:
 
 def _exc_name(e):
     return 'MALFORMED' if isinstance(e, _Malformed) else type(e).__name__
+
+
+def _enc_time(t):
+    """the 'no value generated yet' marker is not a number: reported as null"""
+    return int(t) if isinstance(t, int) and not isinstance(t, bool) else None
 
 
 def _enc(v):
@@ -118,7 +123,7 @@ class _Run:
         return [int(tf()), int(ts), until, len(tf._pushed_state), getattr(tf, 'in_context', None)]
 
     def caches(self):
-        return [[_enc(g._Dynamic_last), int(g._Dynamic_time), len(g._saved_Dynamic_last), len(g._saved_Dynamic_time)]
+        return [[_enc(g._Dynamic_last), _enc_time(g._Dynamic_time), len(g._saved_Dynamic_last), len(g._saved_Dynamic_time)]
                 for g in self.reg]
 
     def ev(self, tag, res, touched=None, gens=()):
@@ -360,7 +365,7 @@ NEW = {'op': 'newInst'}
 
 def _directed():
     two = [_p('number', _td()), _p('dynamic', _st(0))]
-    # the sentinel: first read at time -1 (Dynamic returns None, Number raises), then reads that are fine
+    # regression of f16aa09: the first read at time -1 must generate (the cache marker used to be -1)
     yield _mk([_p('dynamic', _td())], [T(-1), R(-1, 0)])
     yield _mk([_p('number', _td())], [T(-1), R(-1, 0)])
     yield _mk([_p('dynamic', _td())], [T(-1), R(-1, 0), R(-1, 0), F(-1, 0), R(-1, 0), T(0), R(-1, 0), T(-1), R(-1, 0)])
@@ -428,7 +433,7 @@ def _random_case(rng):
     nparams = rng.randint(1, 4)
     dynTD = rng.random() < 0.93
     names, seeds = ['g', 'n', 'i'], [0, 3, 12]
-    sentinel_ok = rng.random() < 0.06     # keep the known sentinel collision to a small share of the histories
+    sentinel_ok = True                    # time -1 is an ordinary time (regression: the old cache marker was -1)
 
     def src(fresh_only=False, ngens=0):
         r = rng.random()
@@ -619,25 +624,5 @@ def shrink(case):
 
 
 def classify(case, impl, fail):
-    """the one known defect: `_Dynamic_time` starts at -1, so the FIRST read of a generator at
-    time -1 is mistaken for a cache hit.  Narrow: the failing event must be a read, at time -1,
-    that produced the placeholder, of a generator whose cache was still (None, -1) before."""
-    import re
-    if fail.get('kind') != 'counterexample' or not isinstance(impl, dict) or 'events' not in impl:
-        return None
-    m = re.match(r'sentinel: event (\d+) \(read:', str(fail.get('why')))
-    if not m:
-        return None
-    i = int(m.group(1))
-    evs = impl['events']
-    if i >= len(evs):
-        return None
-    e = evs[i]
-    prev = evs[i - 1] if i > 0 else impl['init']
-    if not (e['tag'].startswith('read:') and e['clock'][0] == -1 and e['touched']
-            and e['res'] in ({'ok': None}, {'raised': 'ValueError'})):
-        return None
-    g = e['touched'][0]
-    if g < len(prev['caches']) and prev['caches'][g][:2] == [None, -1] and prev['clock'][0] == -1:
-        return 'sentinel-time-minus-one'
+    """no known findings: the cache-marker collision at time -1 is repaired in /repo (f16aa09)"""
     return None
